@@ -367,6 +367,39 @@ theorem C19_element_bounds_ignored_witness :
     eraseBounds (.agg .list 0 none (.simple 2)) = eraseBounds (.agg .list 0 (some 3) (.simple 2)) ∧
     specializes (.agg .list 0 none (.simple 2)) (.agg .list 0 (some 3) (.simple 2)) = false := by decide
 
+theorem specializes_eq (x e : BTy) :
+    specializes x e = (decide (eraseBounds x = eraseBounds e) && boundsFit x e) := by
+  induction x generalizing e with
+  | simple t =>
+    cases e with
+    | simple t' => by_cases h : t = t' <;> simp [specializes, eraseBounds, boundsFit, h]
+    | agg _ _ _ _ => simp [specializes, eraseBounds, boundsFit]
+  | agg k lo hi b ih =>
+    cases e with
+    | simple _ => simp [specializes, eraseBounds, boundsFit]
+    | agg k' lo' hi' b' =>
+      simp only [specializes, eraseBounds, boundsFit, ih b']
+      by_cases hk : k = k' <;> by_cases hb : eraseBounds b = eraseBounds b' <;> simp [hk, hb]
+
+/-- Once `check_type` compares the bounds (fixes/C19-7; `elementBoundsChecked`, a regenerated fact established by executing
+the helper on a table of kinds and bounds), an element aggregate is accepted for a declared aggregate element type
+**exactly** when EXPRESS lets it stand for that type: same kind and base type at every level and conforming bounds at
+every level.  On a tree without the bounds comparison the hypothesis is false and `C19_element_bounds_ignored_witness`
+describes the gap. -/
+theorem C19_element_accepted_iff_specializes_when_bounds_checked (hchk : elementBoundsChecked = true)
+    (x : BTy) (k : Kind) (lo : Int) (hi : Option Int) (b : BTy) :
+    elementAccepted x (.agg k lo hi b) = specializes x (.agg k lo hi b) := by
+  rw [specializes_eq]
+  unfold elementAccepted
+  rw [hchk]
+  simp only [if_true]
+  congr 1
+  have h := checkType_iff ⟨eraseBounds x, 1⟩ (eraseBounds (.agg k lo hi b))
+  have hc : conforms (eraseBounds x) (eraseBounds (.agg k lo hi b)) = true ↔
+      eraseBounds x = eraseBounds (.agg k lo hi b) := by simp [eraseBounds, conforms]
+  rw [Bool.eq_iff_iff, h, hc]
+  simp
+
 /-! ## the EXPRESS built-in functions (Builtin.py) -/
 
 def specFn : BFn → BuiltinFn
@@ -440,7 +473,7 @@ example : runDecl ⟨.array, 1, some 3, .agg .array 2, false, true⟩
 declared base type — the aggregate kind at *every* level and the simple type at the bottom (bounds and flags of element
 aggregates are not compared, as in the code).  Depends on the regenerated comparison mode (`elementBaseCmp = structural`). -/
 theorem C19_check_type_structural (x : Val) (e : Ty) :
-    (checkType x e = true ↔ conforms x.ty e = true) ∧ (e ≠ .simple 5 → (checkType x e = true ↔ x.ty = e)) :=
+    (checkType x e = true ↔ conforms x.ty e = true) ∧ (plainBase e = true → (checkType x e = true ↔ x.ty = e)) :=
   ⟨checkType_iff x e, fun hb => (checkType_iff x e).trans (conforms_eq_iff x.ty e hb)⟩
 
 /-- Before fixes/C19-5 (`instance.get_type() == expected_type.get_type()`, identity on aggregate objects): with three
